@@ -160,7 +160,7 @@ PROPS = {
         ],
     },
     "C02": {
-        "coq_targets": ["theories/VM/Corr.vo", "theories/Lang/Rewrites.vo"],
+        "coq_targets": ["theories/VM/Corr.vo", "theories/Lang/Rewrites.vo", "theories/VM/ValidateProofs.vo"],
         "harness": ["c02"],
         "tables": True,
         "disagreement_is_violation": True,
